@@ -137,6 +137,36 @@ theorem C03_order (names go : List String) (h : names.Nodup) :
     holdsOrder names go (compileOrder names go) = true := by
   simp [holdsOrder, order_eq_spec names go h]
 
+/-- '.notdef' is glyph 0 of the modelled compile for EVERY name set and EVERY requested order — in particular when glyph
+names compare lower than the string ".notdef" ("-", ".alt", ".n", …), where a plain `sorted()` would put them first. -/
+theorem C03_notdef_first (names go : List String) (h : names.Nodup) :
+    (compileOrder names go).head? = some ".notdef" := by
+  rw [order_eq_spec names go h]; rfl
+
+/-- with nothing to honour (no stored order, an empty one, or an explicit `glyphOrder=[]`) the order is '.notdef' followed by
+ALL other glyphs sorted by name — not the sorted list of all names. -/
+theorem C03_empty_order (names : List String) (h : names.Nodup) :
+    compileOrder names [] = ".notdef" :: sortStr (names.filter (fun n => n != ".notdef")) := by
+  rw [order_eq_spec names [] h]; simp [specOrder, listed, ND]
+
+/-- witness that the two differ (the shape of seeded change C03e): for the glyph set {"-"} plain alphabetical order of the
+completed glyph set is ["-", ".notdef"], which is not the compile order. -/
+theorem plain_sorted_ne_order : sortStr (withNotdef ["-"]) ≠ compileOrder ["-"] [] := by
+  intro hh
+  have := congrArg List.head? hh
+  rw [C03_notdef_first _ _ (by simp)] at this
+  have hp : sortStr (withNotdef ["-"]) = ["-", ".notdef"] := by
+    unfold sortStr
+    exact List.mergeSort_of_pairwise (by simp [withNotdef, strLe])
+  rw [hp] at this
+  simp at this
+
+example : compileOrder ["-", ".alt", "a"] [] = [".notdef", "-", ".alt", "a"] := by
+  rw [C03_empty_order _ (by decide)]
+  have hf : (["-", ".alt", "a"].filter (fun n => n != ".notdef")) = ["-", ".alt", "a"] := by decide
+  rw [hf]; unfold sortStr
+  rw [List.mergeSort_of_pairwise (by simp [strLe])]
+
 end Ufo2ft.C03
 
 namespace Ufo2ft.C03
